@@ -192,10 +192,18 @@ class CheckContext:
         r.why = why
         return r
 
-    def attempt(self, ident, thunk, clause=""):
-        """Run an obligation generator; a construct outside the subset makes the obligation undecided."""
+    def attempt(self, ident, thunk, clause="", replay=None, fn=None):
+        """Run an obligation generator; a construct outside the subset makes the obligation undecided.  A fixed-column slice
+        that cannot be shown to align with the written fields becomes the obligation 'the field is aligned' (decided by the solver)."""
+        from .strings import MisalignedSlice
         try:
             return thunk()
+        except MisalignedSlice as e:
+            if e.pc is not None and e.cond is not None:
+                return self.prove(ident + "/aligned", e.pc, e.cond, clause=f"reader slice [{e.lo}:{e.hi}] aligns with the written fields ({e.seg!r} at offset {e.off})",
+                                  replay=replay, fn=fn)
+            self.outside_subset.append({"obligation": f"{self.prop}/{ident}", "reason": str(e)})
+            return self.undecided(ident, f"outside subset: {e}", clause)
         except Unsupported as e:
             self.outside_subset.append({"obligation": f"{self.prop}/{ident}", "reason": str(e)})
             return self.undecided(ident, f"outside subset: {e}", clause)
